@@ -81,7 +81,7 @@ fn lookup(tbl: &[(&'static str, usize, usize)], name: &str) -> (usize, usize) {
     (f.1, f.2)
 }
 
-fn huge_image(rng: &mut Rng, k: u64) -> (Vec<u8>, J) {
+pub fn huge_image(rng: &mut Rng, k: u64) -> (Vec<u8>, J) {
     // over 12 consecutive k every (class, order, shstrndx variant) combination occurs
     let c64 = k % 2 == 0;
     let be = (k / 2) % 2 == 0;
